@@ -147,10 +147,10 @@ class Evaluator:
             if b["term"]["k"] != "return":
                 continue
             if True:
-                # a body with a loop: paths in which every block is entered at most 3 times, every local resolved
+                # a body with a loop: paths in which every block is entered at most 5 times, every local resolved
                 # to its last definition before the use along the path (flow.shape_at); more iterations than that
                 # leave no feasible path and the evaluation fails closed
-                for path in (pathterms.paths_with_loops(fn, r, max_visits=3) if loops else pathterms.acyclic_paths(fn, r)):
+                for path in (pathterms.paths_with_loops(fn, r, max_visits=5) if loops else pathterms.acyclic_paths(fn, r)):
                     conds = []
                     for i, bb, op, taken, excluded in pathterms.conditions_at(fn, path):
                         sh = flow.shape_at(fn, op, path, (i, 10 ** 9), depth=64)
